@@ -25,6 +25,10 @@ where
         Self { source, values }
     }
 
+    pub fn len(&self) -> usize {
+        self.values.len()
+    }
+
     pub fn get(&self, index: Source::Idx) -> Result<&Arc<Value>, Source::Error> {
         let cache_slot = &self.values[index.into()];
         if cache_slot.get().is_none() {
